@@ -157,6 +157,10 @@ func (en *Engine) popFrame(st *State, vals []Val) {
 		st.addEvent(&Event{Kind: EvIterExit, Instr: fr.retTo, Callee: fr.handlerIter, Res: vals, Fn: caller.fn})
 		st.popIter(fr.handlerIter)
 	}
+	if fr.handler && len(vals) == 1 && isHaltSentinel(vals[0]) {
+		// etreeutils.ErrTraversalHalted ends the walk and the helper reports success (the iter-exit event keeps the sentinel)
+		vals = []Val{nilOf(vals[0].Type())}
+	}
 	if v, ok := fr.retTo.(ssa.Value); ok {
 		switch len(vals) {
 		case 0:
@@ -298,6 +302,16 @@ func (en *Engine) iterate(st *State, fr *Frame, x *ssa.Call, name string, callee
 	}
 	en.pushFrame(g, fr, x, h.Fn, h.Bindings, hargs, true, id)
 	return []*State{z, e, g}, true, nil
+}
+
+// isHaltSentinel: the value is a load of etreeutils.ErrTraversalHalted.
+func isHaltSentinel(v Val) bool {
+	l, ok := v.(*LoadV)
+	if !ok {
+		return false
+	}
+	g, ok := l.Addr.(*GlobalV)
+	return ok && g.G != nil && g.G.Pkg != nil && g.G.Name() == "ErrTraversalHalted" && strings.HasSuffix(g.G.Pkg.Pkg.Path(), "goxmldsig/etreeutils")
 }
 
 func handlerStores(fn *ssa.Function) []*ssa.Store {
